@@ -76,7 +76,8 @@ def run(ctx, rep):
                            f"the Rabin fingerprint handed to the chunker does not (only) come from this configuration's polynomial (process-wide cache / other source: {sorted(set(statics + bad))[:3]}): a second repository in the same process is chunked with the first one's polynomial")
         else:
             rep.check("C06.h", "fixed_size/size-from-config", not bad, where=where(FC, bb), what="the fixed chunk size comes from the configuration passed in")
-    from rules import arith
+    from rules import arith, C13
+    C13.global_state_rule(ctx, rep)
     arith.run_c06(ctx, rep)
     # ---- C06.g: the carry never exceeds the minimum chunk size -------------------------------------------
     _, _, finv = arith.analyse_all(ctx)
